@@ -27,6 +27,33 @@ if TYPE_CHECKING:  # pragma: no cover
 from functools import cached_property
 
 
+class _TermKeyedDict(dict):
+    """
+    A dictionary keyed by `Term` instances that can also be indexed by the
+    string representation of a term, regardless of the order of its factors
+    (`Term`s hash by their sorted factors, but print in their original order).
+    """
+
+    def __find(self, key: Any) -> Any:
+        if isinstance(key, str):
+            for term in self:
+                if term == key:
+                    return term
+        return None
+
+    def __missing__(self, key: Any) -> Any:
+        term = self.__find(key)
+        if term is None:
+            raise KeyError(key)
+        return dict.__getitem__(self, term)
+
+    def __contains__(self, key: Any) -> bool:
+        return dict.__contains__(self, key) or self.__find(key) is not None
+
+    def get(self, key: Any, default: Any = None) -> Any:
+        return self[key] if key in self else default
+
+
 @dataclass(frozen=True)
 class ModelSpec:
     """
@@ -201,7 +228,7 @@ class ModelSpec:
         up elements of this mapping using the string representation of the
         `Term`.
         """
-        slices = {}
+        slices = _TermKeyedDict()
         start = 0
         for row in self.__structure:
             end = start + len(row[2])
@@ -251,10 +278,12 @@ class ModelSpec:
         up elements of this mapping using the string representation of the
         `Term`.
         """
-        return {
-            k: slice(v[0], v[-1] + 1) if v else slice(0, 0)
-            for k, v in self.term_indices.items()
-        }
+        return _TermKeyedDict(
+            {
+                k: slice(v[0], v[-1] + 1) if v else slice(0, 0)
+                for k, v in self.term_indices.items()
+            }
+        )
 
     @cached_property
     def term_factors(self) -> dict[Term, set[Factor]]:
